@@ -59,3 +59,17 @@ Proof.
   repeat split; try (vm_compute; reflexivity).
   intros w [H|[H|[H|[]]]]; subst; eexists; cbn; eauto.
 Qed.
+
+From Verif Require Import Gen.MutPins.
+From Coq Require Import String.
+(* Fingerprints (AST, comments and docstrings excluded) of the source functions this model
+   transcribes by hand, regenerated from /repo on every run (harness/translate/mutpins.py):
+   the model was written for exactly these versions of them. *)
+Theorem model_pins_current :
+  pins_C47 =
+  [("publish_got_write_answer", "166be3157ed17053")%string;
+   ("publish_connection_problem", "8866e12b1287c4fd")%string;
+   ("publish_push", "e8d2c5fe4539fa11")%string;
+   ("publish_failure", "b5ed585237faa250")%string].
+Proof. reflexivity. Qed.
+Print Assumptions model_pins_current.
